@@ -535,6 +535,15 @@ func init() {
 			for _, s := range sw.Body.List {
 				cc := s.(*ast.CaseClause)
 				rs := rejects(cc.Body)
+				if len(rs) == 0 {
+					// a rejection nested more deeply still makes the case conditional
+					ast.Inspect(cc, func(nd ast.Node) bool {
+						if st, ok := nd.(ast.Stmt); ok && setsFalse(st) && len(rs) == 0 {
+							rs = append(rs, rej{ast.NewIdent("nested")})
+						}
+						return true
+					})
+				}
 				if cc.List == nil {
 					hasDefault = true
 					r.Check(len(rs) >= 1 && rs[0].cond == nil, "default-rejects", cc.Pos(), "unknown node kinds fail the value")
@@ -549,15 +558,7 @@ func init() {
 					case len(rs) == 0:
 						r.Check(allowed[nm], "accept:"+nm, cc.Pos(), "unconditionally accepted node kind %s cannot call a function, receive from a channel or run code", nm)
 					case nm == "*ast.CallExpr":
-						for _, rj := range rs {
-							if ta, ok := ast.Unparen(rj.cond).(*ast.TypeAssertExpr); ok && types.ExprString(ta.Type) == "*types.Signature" {
-								if tc := fi.isCall(ta.X, "go/types.Info.TypeOf"); tc != nil {
-									if sel, ok := ast.Unparen(tc.Args[0]).(*ast.SelectorExpr); ok && sel.Sel.Name == "Fun" {
-										okCall = len(rs) == 1
-									}
-								}
-							}
-						}
+						okCall = callRejection(fi, cc, setsFalse)
 					case nm == "*ast.UnaryExpr":
 						for _, rj := range rs {
 							if be, ok := ast.Unparen(rj.cond).(*ast.BinaryExpr); ok && be.Op == token.EQL {
@@ -572,7 +573,7 @@ func init() {
 				}
 			}
 			r.Check(hasDefault, "default-present", sw.Pos(), "the node-kind switch has a default")
-			r.Check(okCall, "call-only-conversion", sw.Pos(), "a call node is rejected exactly when its Fun has a function signature (only conversions pass)")
+			r.Check(okCall, "call-only-conversion", sw.Pos(), "a call node is rejected exactly when its Fun is not a type expression and has a function type, defined function types included (only conversions and constant-folded builtins pass)")
 			r.Check(okUnary, "unary-not-receive", sw.Pos(), "a unary node is rejected exactly when its operator is <-")
 			// the flag starts true and its final value decides: success is dominated by it (directly, or
 			// through a single-call-site helper that returns it)
@@ -818,13 +819,26 @@ func init() {
 						what = "obj.Pkg()"
 					case af.isCall(d, "go/types.Object.Parent", "go/types.object.Parent") != nil:
 						what = "obj.Parent()"
-					case af.isCall(d, "go/types.Info.ObjectOf") != nil:
+					case af.isCall(d, "go/types.Info.ObjectOf", pathW+".referencedObject") != nil:
 						what = "obj" // an identifier that denotes no object has nothing to reject (and nothing to ask)
+					case af.isCall(d, "go/types.Info.TypeOf") != nil:
+						what = "type"
 					}
 					if isNil {
 						return what + "==nil"
 					}
 					return what + "!=nil"
+				}
+				if g.Loop {
+					return "loop"
+				}
+				if x, ne, ok := af.lenTest(g); ok && ne {
+					if f := af.selField(x); f != nil && f.Name() == "Elts" {
+						return "literal-has-elements"
+					}
+				}
+				if cl := af.isCall(g.Expr, "go/types.Var.Exported", "go/types.object.Exported"); cl != nil {
+					return neg + "field.Exported()"
 				}
 				if cl := af.isCall(g.Expr, "go/ast.IsExported"); cl != nil {
 					if f := af.selField(cl.Args[0]); f != nil && f.Name() == "Name" {
@@ -861,13 +875,13 @@ func init() {
 				}
 				return neg + "?(" + types.ExprString(g.Expr) + ")"
 			}
-			var unexported, scope bool
+			var unexported, scope, literal bool
 			for _, rj := range rejs {
 				var all, core []string
 				for _, g := range rj.conds {
 					s := classify(g)
 					all = append(all, s)
-					if s == "err==nil" || s == "ok" || s == "!ok" || s == "obj.Pkg()!=nil" || s == "obj!=nil" {
+					if s == "err==nil" || s == "ok" || s == "!ok" || s == "obj.Pkg()!=nil" || s == "obj!=nil" || s == "type!=nil" || s == "loop" || s == "literal-has-elements" {
 						continue
 					}
 					// "the other rejection did not fire" (its if-body ends the callback)
@@ -890,6 +904,9 @@ func init() {
 				case "!IsExported(ident.Name) ∧ pkg.Path()!=wantPkg":
 					unexported = true
 					r.Ok("reject/unexported-foreign", rj.as.Pos(), "an identifier is rejected when it is unexported and belongs to another package — under exactly: %s", got)
+				case "!field.Exported() ∧ pkg.Path()!=wantPkg":
+					literal = true
+					r.Ok("reject/unkeyed-literal-unexported-field", rj.as.Pos(), "an unkeyed struct literal is rejected when the struct has an unexported field of another package — under exactly: %s", got)
 				case "obj.Parent()!=nil ∧ obj.Parent()!=pkg.Scope()":
 					scope = true
 					r.Ok("reject/not-package-scope", rj.as.Pos(), "a declared object is rejected when it is not at package scope — under exactly: %s", got)
@@ -899,6 +916,7 @@ func init() {
 			}
 			r.Check(unexported, "reject/unexported-foreign-present", lit.Pos(), "the unexported-foreign rejection exists with its exact guard")
 			r.Check(scope, "reject/not-package-scope-present", lit.Pos(), "the not-package-scope rejection exists with its exact guard")
+			r.Check(literal, "reject/unkeyed-literal-present", lit.Pos(), "an unkeyed literal of a struct with unexported fields of another package is rejected (it mentions no identifier the other tests could see)")
 		})
 }
 
@@ -914,4 +932,85 @@ func (fi *FuncInfo) argTypeOfAny(e ast.Expr, k int) bool {
 		}
 	}
 	return false
+}
+
+// callRejection decides the *ast.CallExpr case of the value filter: the one
+// rejection in the clause must be reached exactly when the callee (<node>.Fun)
+// is not a type expression (Info.Types[Fun].IsType() is false) and the
+// UNDERLYING type of the callee is a signature. Looking at the type without
+// Underlying lets calls through values of defined function types pass;
+// leaving out the IsType test rejects conversions to function types.
+func callRejection(fi *FuncInfo, cc *ast.CaseClause, setsFalse func(ast.Stmt) bool) bool {
+	var sites []ast.Stmt
+	ast.Inspect(cc, func(nd ast.Node) bool {
+		if st, ok := nd.(ast.Stmt); ok && setsFalse(st) {
+			sites = append(sites, st)
+		}
+		return true
+	})
+	if len(sites) != 1 {
+		return false
+	}
+	isFun := func(e ast.Expr) bool {
+		sel, ok := ast.Unparen(e).(*ast.SelectorExpr)
+		return ok && sel.Sel.Name == "Fun"
+	}
+	// tvOfFun: info.Types[<node>.Fun], possibly through a local
+	tvOfFun := func(e ast.Expr) bool {
+		ix, ok := ast.Unparen(fi.deref(e)).(*ast.IndexExpr)
+		if !ok || !isFun(ix.Index) {
+			return false
+		}
+		f := fi.selField(ix.X)
+		return f != nil && f.Name() == "Types"
+	}
+	typeOfFun := func(e ast.Expr) bool {
+		e = ast.Unparen(fi.deref(e))
+		if tc := fi.isCall(e, "go/types.Info.TypeOf"); tc != nil && isFun(tc.Args[0]) {
+			return true
+		}
+		if sel, ok := e.(*ast.SelectorExpr); ok && sel.Sel.Name == "Type" && tvOfFun(sel.X) {
+			return true
+		}
+		return false
+	}
+	notType, underSig, other := false, false, 0
+	for _, g := range fi.GuardsWithin(sites[0], cc) {
+		if g.Kind != "bool" {
+			other++
+			continue
+		}
+		ex := ast.Unparen(g.Expr)
+		// !tv.IsType()
+		if cl, ok := ex.(*ast.CallExpr); ok && g.Neg {
+			if sel, ok := ast.Unparen(cl.Fun).(*ast.SelectorExpr); ok && sel.Sel.Name == "IsType" && tvOfFun(sel.X) {
+				notType = true
+				continue
+			}
+		}
+		// tv.Type != nil / TypeOf(...) != nil
+		if x, isNil, ok := fi.nilTest(g); ok && !isNil && typeOfFun(x) {
+			continue
+		}
+		// isFunc from `_, isFunc := T.Underlying().(*types.Signature)`
+		if v := fi.varOf(ex); v != nil && !g.Neg {
+			okSig := false
+			for _, d := range fi.defs[v] {
+				if d.idx != 1 || d.rhs == nil {
+					continue
+				}
+				if ta, ok := ast.Unparen(d.rhs).(*ast.TypeAssertExpr); ok && types.ExprString(ta.Type) == "*types.Signature" {
+					if uc := fi.isCall(ta.X, "go/types.Type.Underlying"); uc != nil && typeOfFun(recvOf(uc)) {
+						okSig = true
+					}
+				}
+			}
+			if okSig {
+				underSig = true
+				continue
+			}
+		}
+		other++
+	}
+	return notType && underSig && other == 0
 }
